@@ -2192,6 +2192,14 @@ func configEntryWithOverridesTxn(
 		if ok {
 			return 0, entry, nil // a nil entry implies it should act like it is erased
 		}
+		// The table keys config entries by their lower-cased name, so a write
+		// of "Web" replaces the stored "web": the row it is about to replace
+		// must not be read as if it were still there next to it.
+		for okn, entry := range overrides {
+			if okn.Kind == kn.Kind && okn.EnterpriseMeta.IsSame(&kn.EnterpriseMeta) && strings.EqualFold(okn.Name, kn.Name) {
+				return 0, entry, nil
+			}
+		}
 	}
 
 	return configEntryTxn(tx, ws, kind, name, entMeta)
